@@ -1,0 +1,17 @@
+//go:build verif
+
+package hmtx
+
+// Read-only wrappers around unexported functions, used by the verification
+// harness of property C12 (/verif).  Add-only; compiled only with -tags verif.
+
+// VerifC12FromAngle exposes fromAngle (caret angle -> slope rise/run).
+func VerifC12FromAngle(caretAngle float64) (rise, run int16) { return fromAngle(caretAngle) }
+
+// VerifC12ToAngle exposes toAngle (slope rise/run -> caret angle).
+func VerifC12ToAngle(rise, run int16) float64 { return toAngle(rise, run) }
+
+// VerifC12BestRationalApproximation exposes bestRationalApproximation.
+func VerifC12BestRationalApproximation(x float64, n int) (p, q int) {
+	return bestRationalApproximation(x, n)
+}
